@@ -172,7 +172,7 @@ def main():
 
         cli(sys.argv, mode='output')
 
-    except ValueError as e:
+    except (ValueError, OverflowError) as e:
         error_msg("GRAPH ERROR: " + str(e))
         sys.exit(-1)
 
